@@ -65,6 +65,15 @@ type CatSc struct {
 
 // inRecMsg is the message carried by record k of the in helper.
 func (s *CatSc) inRecMsg(k int64) []byte {
+	if s.Mix && k%23 == 11 {
+		// a long sysex dump (a line of more than 4096 characters on the helper's output)
+		b := make([]byte, 0, 3002)
+		b = append(b, 0xF0)
+		for i := 0; i < 3000; i++ {
+			b = append(b, byte((int64(i)+k)&0x7F))
+		}
+		return append(b, 0xF7)
+	}
 	if s.Mix {
 		switch k % 6 {
 		case 1:
@@ -78,16 +87,21 @@ func (s *CatSc) inRecMsg(k int64) []byte {
 	return recMsg(k)
 }
 
-// filtered reports whether the listen options keep record k from the listener.
-func (s *CatSc) filtered(k int64) bool {
+// filteredFor reports whether the listen options keep record k from a listener (flip: the
+// listener asked for the opposite of the scenario's options).
+func (s *CatSc) filteredFor(k int64, flip bool) bool {
 	m := s.inRecMsg(k)
+	as, tc, sx := s.ActiveSense, s.TimeCode, s.SysEx
+	if flip {
+		as, tc, sx = !as, !tc, !sx
+	}
 	switch {
 	case m[0] == 0xFE:
-		return !s.ActiveSense
+		return !as
 	case m[0] == 0xF8:
-		return !s.TimeCode
+		return !tc
 	case m[0] == 0xF0:
-		return !s.SysEx
+		return !sx
 	}
 	return false
 }
@@ -145,7 +159,8 @@ func (catWorld) Gen(seed uint64, tier string) core.Scenario {
 					// a second Listen while a listener is active is refused by this driver
 					// ("listener already set"); a refused call must change nothing
 					if r.Chance(1, 4) {
-						s.InOps = append(s.InOps, CatOp{Op: "listen"})
+						// M = 1: this (normally refused) Listen asks for the opposite options
+						s.InOps = append(s.InOps, CatOp{Op: "listen", M: r.Intn(2)})
 						nListens++
 					}
 					continue
@@ -775,15 +790,19 @@ func (s *CatSc) execute(env *core.Env) (ro runOut) {
 						do("in", i, "listen", func() (error, int64) {
 							var stop func()
 							var err error
+							as, tc, sx := s.ActiveSense, s.TimeCode, s.SysEx
+							if op.M == 1 {
+								as, tc, sx = !as, !tc, !sx
+							}
 							if s.ViaListenTo {
 								var o []midi.Option
-								if s.ActiveSense {
+								if as {
 									o = append(o, midi.UseActiveSense())
 								}
-								if s.TimeCode {
+								if tc {
 									o = append(o, midi.UseTimeCode())
 								}
-								if s.SysEx {
+								if sx {
 									o = append(o, midi.UseSysEx())
 								}
 								stop, err = midi.ListenTo(in, func(m midi.Message, ms int32) {
@@ -792,7 +811,7 @@ func (s *CatSc) execute(env *core.Env) (ro runOut) {
 							} else {
 								stop, err = in.Listen(func(b []byte, ms int32) {
 									logEvent("callback", j, int64(ms), string(b))
-								}, drivers.ListenConfig{ActiveSense: s.ActiveSense, TimeCode: s.TimeCode, SysEx: s.SysEx})
+								}, drivers.ListenConfig{ActiveSense: as, TimeCode: tc, SysEx: sx})
 							}
 							if err == nil {
 								stops = append(stops, stop)
